@@ -308,7 +308,9 @@ func (dm *DMap) putOnCluster(e *env) error {
 		if dm.config.ttlDuration.Seconds() != 0 && e.timeout.Seconds() == 0 {
 			e.timeout = dm.config.ttlDuration
 		}
-		if dm.config.evictionPolicy == config.LRUEviction {
+		// Expire only rewrites the expiry of a stored key. It adds nothing, so there is no room to make:
+		// the eviction would remove a key for nothing, possibly the very key the caller is updating.
+		if dm.config.evictionPolicy == config.LRUEviction && !e.putConfig.OnlyUpdateTTL {
 			if err = dm.setLRUEvictionStats(e); err != nil {
 				return err
 			}
